@@ -632,6 +632,8 @@ def check(run, prog):
     rule_file_kind(run, prog)                # R-2.10
     from .snippet_rules import rule_vla_sizes
     rule_vla_sizes(run, prog)                # R-2.11
+    from .snippet_rules import rule_global_prefix
+    rule_global_prefix(run, prog)            # R-2.12
 
 
 def _ancestors(n):
